@@ -3,6 +3,7 @@ import collections
 import io
 import itertools
 import os
+import re
 import sys
 import types
 import unittest
@@ -313,11 +314,68 @@ def _enum():
                 yield {"tree": t, "ids": ids, "unpack_outer": unpack}
 
 
+def custom_subprocess(ctx):
+    """True child interpreters: python -m testtools.run --list / --load-list on a generated module."""
+    if ctx["tier"] != "thorough":
+        return []
+    import shutil
+    import subprocess
+    from vp.core import REPO
+    out = []
+    work = os.path.join(_WORK, "c19-sub-%d" % os.getpid())
+    os.makedirs(work, exist_ok=True)
+    try:
+        src = ("import unittest, testtools\n"
+               "class A(testtools.TestCase):\n"
+               "    def test_b(self): pass\n"
+               "    def test_a(self): pass\n"
+               "class Custom(unittest.TestSuite):\n"
+               "    pass\n"
+               "class B(testtools.TestCase):\n"
+               "    def test_z(self): pass\n"
+               "    def test_y(self): self.fail('y')\n"
+               "def test_suite():\n"
+               "    return unittest.TestSuite([B('test_z'), Custom([A('test_b'), unittest.TestSuite([A('test_a')])]), unittest.TestSuite(), B('test_y')])\n")
+        with open(os.path.join(work, "genmod.py"), "w") as f:
+            f.write(src)
+        ids = ["genmod.B.test_z", "genmod.A.test_b", "genmod.A.test_a", "genmod.B.test_y"]
+        env = dict(os.environ, PYTHONPATH=REPO + os.pathsep + work)
+
+        def run(args):
+            return subprocess.run([sys.executable, "-m", "testtools.run"] + args + ["genmod.test_suite"], env=env,
+                                  capture_output=True, text=True, cwd=work)
+        p = run(["--list"])
+        vs = []
+        if p.stdout.split() != ids or p.returncode != 0:
+            vs.append(V("cli", "subprocess-list", "--list printed %r (exit %d), expected %r" % (p.stdout.split(), p.returncode, ids)))
+        out.append(({"subprocess": "--list"}, Case(vs, True, ["subprocess"])))
+        for keep in ([], ids[1:3], [ids[3]], ids, ["absent.id"], [ids[0], "absent.id"]):
+            lf = os.path.join(work, "list.txt")
+            with open(lf, "w") as f:
+                f.write("".join(i + "\n" for i in keep))
+            want = [i for i in ids if i in keep]
+            vs = []
+            p = run(["--list", "--load-list", lf])
+            if p.stdout.split() != want:
+                vs.append(V("cli", "subprocess-load-list-list", "--list --load-list %r printed %r" % (keep, p.stdout.split())))
+            p = run(["--load-list", lf])
+            m = re.search(r"Ran (\d+) test", p.stdout)
+            if not m or int(m.group(1)) != len(want):
+                vs.append(V("cli", "subprocess-load-list-run", "--load-list %r: %r" % (keep, p.stdout[-200:])))
+            if (p.returncode == 0) != (ids[3] not in want):
+                vs.append(V("cli", "subprocess-exit", "--load-list %r exited %d" % (keep, p.returncode)))
+            out.append(({"subprocess": "--load-list", "ids": keep}, Case(vs, True, ["subprocess"])))
+    finally:
+        shutil.rmtree(work, ignore_errors=True)
+    return out
+
+
 def subchecks(tier):
     q = tier == "quick"
     return [
         Sub("suite_utilities", run_case, s_case(), 2500 if q else 150000),
         Sub("run_list_loadlist", run_cli, s_cli(), 300 if q else 12000),
+        Sub("subprocess_cli", run_cli, custom=custom_subprocess, note="python -m testtools.run in child interpreters (thorough only)"),
         Sub("enumerated_small_trees", run_case, enum=_enum, enum_complete=True,
             note="all trees of depth<=2/fan-out<=2 over 4 suite kinds and 3 leaf ids x 4 id subsets x unpack_outer"),
     ]
